@@ -118,7 +118,9 @@ def _distbound(rng, n):
     """a segment W repeated at a distance exactly around LZ4_DISTANCE_MAX (65533..65540, 2^17), with little or much
     hash-table traffic in between (zero/periodic/text/random filler), optionally preceded by a short (4..6 byte)
     NEARER match that starts 1..2 bytes earlier, so that 'a better match at ip+1' paths see the far candidate"""
-    out = bytearray(rng.randbytes(rng.randrange(16, 3000)))
+    # W at the very first byte of the input in a third of the cases: the candidate then sits exactly on the lowest index
+    # of the window (the "withinStartDistance" decisions of the HC match finders, seeded C01_5)
+    out = bytearray(rng.randbytes(rng.randrange(16, 3000))) if rng.random() < 0.65 else bytearray()
     for _ in range(rng.choice([1, 1, 2])):
         D = rng.choice([65533, 65534, 65535, 65535, 65536, 65536, 65536, 65537, 65538, 65540, 131071, 131072])
         L = rng.choice([8, 9, 12, 16, 20, 40, 72, 100, 1000])
